@@ -271,7 +271,9 @@ pub struct EnumSpec {
     pub variants: Vec<VariantSpec>,
 }
 
-pub const BASE_IDENTS: [&str; 8] = ["Aa", "BbCc", "DEf", "G2h", "I_j", "Kk", "Ll", "Mm"];
+/// declaration order is deliberately not alphabetical (nor is the order of the re-cased names), so that a
+/// derive that sorts, reverses or re-indexes the variant list is observable
+pub const BASE_IDENTS: [&str; 8] = ["Kk", "BbCc", "DEf", "Aa", "I_j", "G2h", "Mm", "Ll"];
 
 impl EnumSpec {
     pub fn base(n: usize) -> Self {
